@@ -11,6 +11,7 @@ import (
 	"cosmossdk.io/math"
 
 	sdk "github.com/cosmos/cosmos-sdk/types"
+	banktypes "github.com/cosmos/cosmos-sdk/x/bank/types"
 	stakingtypes "github.com/cosmos/cosmos-sdk/x/staking/types"
 )
 
@@ -102,6 +103,30 @@ func c18One(l *LabCtx) {
 			subSum = subSum.Add(amt)
 		}
 	}
+	// messages that move no stake, mixed in at the front, in between or at the end ("all staking messages of the
+	// transaction together" - whatever else the transaction carries)
+	other := "none"
+	if r.Chance(0.35) {
+		extra := func() sdk.Msg {
+			if r.Chance(0.5) {
+				return &banktypes.MsgSend{FromAddress: del.Bech(), ToAddress: l.C.W.Users[1].Bech(), Amount: sdk.NewCoins(sdk.NewInt64Coin(Denom, 1))}
+			}
+			return &reportertypes.MsgSelectReporter{SelectorAddress: del.Bech(), ReporterAddress: l.C.W.Vals[0].Op.Bech()}
+		}
+		switch r.Pick(3) {
+		case 0:
+			msgs = append([]sdk.Msg{extra()}, msgs...)
+			other = "first"
+		case 1:
+			msgs = append(msgs, extra())
+			other = "last"
+		default:
+			k := r.Pick(len(msgs) + 1)
+			msgs = append(msgs[:k], append([]sdk.Msg{extra()}, msgs[k:]...)...)
+			msgs = append(msgs, extra())
+			other = "between-and-last"
+		}
+	}
 	tb := a.TxConfig().NewTxBuilder()
 	if err := tb.SetMsgs(msgs...); err != nil {
 		return
@@ -140,6 +165,8 @@ func c18One(l *LabCtx) {
 				one = x.Value.Amount
 			case *stakingtypes.MsgUndelegate:
 				one, add = x.Amount.Amount, false
+			default:
+				continue
 			}
 			if add && new(big.Int).Mul(cur.Add(one).BigInt(), big.NewInt(20)).Cmp(new(big.Int).Mul(base.BigInt(), big.NewInt(21))) > 0 {
 				perMsgOnly = false
@@ -150,6 +177,7 @@ func c18One(l *LabCtx) {
 		}
 	}
 	l.St.Bucket("c18|msgs=%d|mix=%d|base=%d%%|accepted=%v|within=%v|each-alone-passes=%v", minInt(nmsg, 6), mix, num, accepted, upOK && downOK, perMsgOnly)
+	l.St.Bucket("c18|other-messages=%s|accepted=%v|within=%v", other, accepted, upOK && downOK)
 	if accepted && (!upOK || !downOK) {
 		side := "increase"
 		if !downOK {
